@@ -1392,6 +1392,11 @@ class Interp:
         if isinstance(obj, ClassModel):
             c, member = obj.find(name)
             if member is None:
+                for cm in obj.mro():
+                    for b in cm.bases or ():
+                        if isinstance(b, str) and name in bm.EXTERNAL_CLASS_CONSTANTS.get(b, {}):
+                            self.world.trusted.add(f'constants of external base class {b} (openpyxl): literal values')
+                            return bm.EXTERNAL_CLASS_CONSTANTS[b][name]
                 if name == '__name__':
                     return obj.name
                 if name == '__new__' and obj.ntfields is not None:
@@ -1440,7 +1445,12 @@ class Interp:
         if key in cache:
             return cache[key]
         env = Env({}, None, cls.module)
-        # earlier class-level names visible
+        # class-level names visible: nested classes, and the class constants themselves (evaluated on demand)
+        nested = getattr(cls, '_nested', None)
+        if nested is None:
+            nested = cls._nested = {st.name: ClassModel(st, cls.module) for st in cls.node.body
+                                    if isinstance(st, ast.ClassDef)}
+        env.vars.update(nested)
         val = self.eval(member.value, env)
         cache[key] = val
         return val
